@@ -11,6 +11,19 @@ def viol(report, rule, b, kind, msg):
     report.violate(Violation(report.key(b.qname, rule, kind, ""), "%s:%d" % (b.file, b.line), rule, "%s: %s" % (rule, msg)))
 
 
+def _value_loc(b, defs, pl, depth=8):
+    """(origin local, field path) of the value moved out of `pl`, following whole-value moves (`_a = move _b.f` -> (_b, (f,)))"""
+    cur = pl
+    for _ in range(depth):
+        if cur["p"]:
+            return mu.resolve_loc(b, defs, cur)
+        d = mu.single_def(defs, cur["l"])
+        if d is None or d[1] == "term" or d[2].get("k") != "use" or d[2]["op"].get("o") not in ("copy", "move"):
+            return (cur["l"], ())
+        cur = d[2]["op"]["pl"]
+    return None
+
+
 def rdata_variants_built(ctx, b, depth=0, seen=None):
     """RData variants constructed by b or the local functions it calls (conversion helpers)"""
     prog = ctx.prog
@@ -313,11 +326,45 @@ def run(ctx):
     # collections by role: the local that ends up in the field of that name of the InstanceInformation built at the end
     defs = mu.defs_of(fr)
     names = {}
+    roles = {}          # (base local of from_records, field path) -> field of the InstanceInformation it ends up in
     for _bi, _si, s0 in mu.aggregates(fr, "InstanceInformation"):
         for fname, op in zip(s0["rv"]["fields"], s0["rv"]["ops"]):
             l0 = mu.origin_local(fr, defs, mu.op_local(op))
             if l0 is not None:
                 names[l0] = fname
+            if op.get("o") in ("copy", "move"):
+                loc = _value_loc(fr, defs, op["pl"])
+                if loc is not None:
+                    roles[loc] = fname
+    # the aggregate built inside a closure (`name.map(|name| InstanceInformation { name, ip_addresses, .. })`): a captured
+    # variable is the operand the closure was constructed with
+    for bl in fr.blocks:
+        for s0 in bl["stmts"]:
+            if s0["s"] != "assign" or s0["rv"]["k"] != "agg" or s0["rv"].get("ak") != "closure":
+                continue
+            cb0 = prog.bodies.get(s0["rv"]["def"])
+            if cb0 is None:
+                continue
+            cdefs = mu.defs_of(cb0)
+            for _bi, _si, s1 in mu.aggregates(cb0, "InstanceInformation"):
+                for fname, op in zip(s1["rv"]["fields"], s1["rv"]["ops"]):
+                    if op.get("o") not in ("copy", "move"):
+                        continue
+                    cur = op["pl"]
+                    for _ in range(6):
+                        if cur["p"]:
+                            break
+                        d0 = mu.single_def(cdefs, cur["l"])
+                        if d0 is None or d0[1] == "term" or d0[2].get("k") != "use" or d0[2]["op"].get("o") not in ("copy", "move"):
+                            break
+                        cur = d0[2]["op"]["pl"]
+                    fs = [p0["f"] for p0 in cur["p"] if isinstance(p0, dict) and "f" in p0]
+                    if cur["l"] == 1 and len(fs) == 1 and fs[0] < len(s0["rv"]["ops"]):
+                        cap = s0["rv"]["ops"][fs[0]]
+                        if cap.get("o") in ("copy", "move"):
+                            loc = _value_loc(fr, defs, cap["pl"])
+                            if loc is not None:
+                                roles[loc] = fname
     if not names:
         names = fr.local_names()
     want = {"A": "ip_addresses", "AAAA": "ip_addresses", "SRV": "ports", "TXT": "attributes"}
@@ -333,7 +380,13 @@ def run(ctx):
                 l = mu.op_local(t["args"][0])
                 for st in mu.trace_back(fr, defs, l if l is not None else -1):
                     if st[2] != "term" and st[3].get("k") == "ref" and not st[3]["pl"]["p"]:
-                        stores.append(names.get(st[3]["pl"]["l"]))
+                        stores.append(roles.get((mu.origin_local(fr, defs, st[3]["pl"]["l"]), ())) or names.get(st[3]["pl"]["l"]))
+                    elif st[2] != "term" and st[3].get("k") == "ref":
+                        # a field of a local struct that carries the collections (`self.ip_addresses` of a helper inlined back)
+                        loc = mu.resolve_loc(fr, defs, st[3]["pl"])
+                        if loc is not None and loc[1]:
+                            stores.append(roles.get(loc, "%s.%s" % (names.get(loc[0], "_%d" % loc[0]), ".".join(map(str, loc[1])))))
+                            break
         if stores == [want.get(vn)]:
             report.nontriv("arm:" + vn)
         else:
